@@ -10,7 +10,7 @@ Context {S : Type}.
 (* ------------------------------------------------------------------ the product is key-wise *)
 Lemma kget_next_cycle (B : Z -> body S) t bc ops (st : mstate S) j :
   kget j (next_state (cycle B t bc ops st)) =
-  option_map (fun ks => fst (key_step (B j) t bc j ks (ops_on j ops))) (kget j st).
+  option_map (fun ks => fst (key_step (B j) t (bc j) j ks (ops_on j ops))) (kget j st).
 Proof.
   induction st as [|[k ks] r IH]; cbn [cycle next_state map kget fst snd option_map]; [reflexivity|].
   destruct (k =? j) eqn:E.
@@ -23,7 +23,7 @@ Definition ev_of (j : Z) (evs : list (Z * kev)) : option kev :=
 
 Lemma ev_of_cycle (B : Z -> body S) t bc ops (st : mstate S) j :
   ev_of j (events (cycle B t bc ops st)) =
-  option_map (fun ks => snd (key_step (B j) t bc j ks (ops_on j ops))) (kget j st).
+  option_map (fun ks => snd (key_step (B j) t (bc j) j ks (ops_on j ops))) (kget j st).
 Proof.
   unfold ev_of. induction st as [|[k ks] r IH]; cbn [cycle events map find kget fst snd option_map]; [reflexivity|].
   destruct (k =? j) eqn:E.
@@ -137,7 +137,7 @@ Proof. unfold run. rewrite fold_left_app. reflexivity. Qed.
 
 Lemma kget_run_cycle (B : Z -> body S) r c j :
   kget j (r_st (run_cycle B r c)) =
-  option_map (fun ks => fst (key_step (B j) (c_t c) (c_bc c) j ks (ops_on j (c_ops c)))) (kget j (r_st r)).
+  option_map (fun ks => fst (key_step (B j) (c_t c) (c_bc c j) j ks (ops_on j (c_ops c)))) (kget j (r_st r)).
 Proof. cbn [run_cycle r_st]. apply kget_next_cycle. Qed.
 
 (* Every key of every reachable state satisfies the invariant. *)
@@ -211,7 +211,7 @@ Qed.
 (* ------------------------------------------------------------------ isolation *)
 (* two cycles look the same to key j *)
 Definition same_for (j : Z) (c1 c2 : cyc) : Prop :=
-  c_t c1 = c_t c2 /\ c_bc c1 = c_bc c2 /\ ops_on j (c_ops c1) = ops_on j (c_ops c2).
+  c_t c1 = c_t c2 /\ c_bc c1 j = c_bc c2 j /\ ops_on j (c_ops c1) = ops_on j (c_ops c2).
 
 (* two run states look the same to key j *)
 Definition agree_on (j : Z) (r1 r2 : run_state S) : Prop :=
